@@ -120,15 +120,14 @@ Read3(sc, ep, m) ==
        ELSE [ep EXCEPT !.rs = rs, !.pl = Dec(a, m.f[2]), !.ss = MixHash(a, m.f[2])]
 
 \* parse_and_verify_peer_id + the dialed-peer comparison of negotiate_connection.
-\* Code oddity (recorded finding): the peer id is derived from the *received bytes* of the key,
-\* so a non-canonical encoding of key K yields an id that is not the id of K ("X").
+\* The peer id is derived from the decoded, verified key (canonical), whatever bytes encoded it.
 Verify(sc, side, ep) ==
   LET p == ep.pl IN
   IF p.t # "payload" THEN Fail(ep)
   ELSE IF p.key.t # "id" THEN Fail(ep)                                   \* PeerIdMissing / unknown key type
   ELSE IF p.sig.t # "sig" THEN Fail(ep)                                  \* BadSignature (missing / garbage)
   ELSE IF ~(p.sig.by = p.key.n /\ p.sig.over = <<"prefix", ep.rs>>) THEN Fail(ep)
-  ELSE LET peer == IF p.key.canon THEN p.key.n ELSE "X" IN
+  ELSE LET peer == p.key.n IN
        IF side = "d" /\ sc.dialed # "none" /\ sc.dialed # peer THEN Fail(ep)   \* PeerIdMismatch
        ELSE [ep EXCEPT !.st = "ok", !.peer = peer]
 
@@ -167,6 +166,4 @@ Allowed(sc, role) ==
 
 Outcome(ep) == IF ep.st = "ok" THEN [o |-> "ok", peer |-> ep.peer] ELSE [o |-> "err", peer |-> ""]
 
-\* recorded finding C01/noncanonical-identity-key: ok with an id that is not the key holder's
-KF1(sc, out) == sc.peer = "rogue" /\ sc.pv = "noncanonKey" /\ out = [o |-> "ok", peer |-> "X"]
 =============================================================================
